@@ -47,6 +47,8 @@ def cases(draw):
             "distribution": draw(st.sampled_from(["oneagent", "adhoc", "gh_cgdp", "mapping"])),
             "mapping": draw(st.lists(st.integers(0, na - 1), min_size=nv, max_size=nv)),
             "hosting": draw(st.lists(st.sampled_from([1, 2, 5, 10]), min_size=na, max_size=na)),
+            # every computation has footprint 1: a capacity of 2 or 3 spreads the computations over several agents
+            "capacity": draw(st.sampled_from([2, 2, 3, 1000])),
             "switch_us": draw(st.sampled_from([5, 50, 500, 5000])),
             "naps": draw(st.lists(st.sampled_from([0, 0, 0, 0, 1, 2, 5]), min_size=8, max_size=8)),
             "rng_seed": draw(st.integers(0, 10 ** 6))}
@@ -101,7 +103,7 @@ def run_case(case):
             random.seed(case["rng_seed"])
             numpy.random.seed(case["rng_seed"] % (2 ** 32))
             dcop, _, _ = build.build_dcop(desc)
-            agents = [AgentDef("a%02d" % i, capacity=1000, default_hosting_cost=case["hosting"][i])
+            agents = [AgentDef("a%02d" % i, capacity=case.get("capacity", 1000), default_hosting_cost=case["hosting"][i])
                       for i in range(case["n_agents"])]
             dcop.add_agents(agents)
             cg = pseudotree.build_computation_graph(dcop)
@@ -191,6 +193,9 @@ def run_case(case):
                 own_violation, own_cost, assignment, got, ctx), nontrivial, labels, info={"kind": "accounting-ref"})
         return Outcome(True, "", nontrivial, labels)
     except UnderTestError as e:
+        if e.exc_type == "ImpossibleDistributionException" and orchestrator is None:
+            # the (incomplete by design) heuristic found no mapping for the tight capacities: not a solve run
+            return Outcome(True, "", False, labels + ["discard:no-distribution"], discard=True)
         return Outcome(False, "raised %s at %s" % (e, e.frame), nontrivial, labels,
                        info={"kind": "raised", "exc": e.exc_type, "frame": e.frame})
     finally:
